@@ -981,7 +981,9 @@ def read_key(acc, root, o, aspect):
     """mechanism key for a read observation that contradicts the SPEC"""
     if acc.order == "Null" and len(root) < acc.boff + acc.c:
         return "null-byte-order-short-buffer"
-    if acc.kind == "enum" and acc.ut[0] and aspect == "value":
+    # the known finding is about fields NARROWER than the enum's underlying type (no sign extension); a wrong value
+    # read from a full-width signed enum field is a different defect and must not be absorbed by it
+    if acc.kind == "enum" and acc.ut[0] and aspect == "value" and acc.w < acc.ut[1]:
         return "enum-signed-narrow-read"
     return "scalar-read:%s:%s" % (acc.kind, aspect)
 
@@ -1024,7 +1026,15 @@ def write_key(acc, root, t, v, o, aspect):
     # Null-ordered container is the argument/range defect, not the (now fixed) Null-orderer size defect
     if acc.order == "Null" and len(root) < acc.boff + acc.c and aspect != "could_write":
         return "null-byte-order-short-buffer"
-    if acc.kind == "enum" and acc.ut[0]:
+    # known finding: negative values of a signed enum are rejected when the field is NARROWER than the value type of
+    # the bit block it lives in (EnumView::CouldWriteValue converts the argument to BitViewType::ValueType and compares
+    # it with 2**kBits unless kBits is that type's full width); fields as wide as their block's value type and
+    # non-negative values are outside it
+    # (the narrow field is treated as unsigned: in-range negatives are refused, and values in [2**(w-1), 2**w) accepted)
+    # "narrower" as EnumView::CouldWriteValue sees it: the round trip through BitViewType::ValueType changes a negative
+    # value unless the field, its block's value type and the enum's underlying type all have the same width
+    if (acc.kind == "enum" and acc.ut[0] and not (acc.w == lw(8 * acc.c) and acc.w == acc.ut[1])
+            and (v < 0 or v >= 2 ** (acc.w - 1))):
         return "enum-signed-narrow-write"
     if acc.kind == "bcd":
         lo, hi = cty_range((False, lw(acc.w)))
